@@ -2,6 +2,7 @@
 From Coq Require Import List Bool ZArith.
 From LLIR Require Import Lib.Bytes Model.Skeleton Proofs.SkeletonProofs.
 From LLIR Require Import Pipeline.MicroIR Pipeline.MicroIRResolve.
+From LLIR Require Proofs.PlaceholderProofs.
 Import ListNotations.
 
 (* function level (Pipeline/MicroIRResolve.v, arbitrary ASTs; IR references are position keys of
@@ -40,3 +41,39 @@ Example C04_use_is_def_module_example :
   let l := [mk NGlobal nameA KPlain []; mk NGlobal nameB KPlain [{| u_ns := NGlobal; u_id := nameA |}]] in
   is_ok (index_defs (number_globals l 0) []) = true /\ is_ok (Skeleton.translate id_oracle (fun x => x) l) = true.
 Proof. split; reflexivity. Qed.
+
+(* placeholders and parent links (Proofs/PlaceholderProofs.v: objects are allocation indices in typed stores;
+   scaffolds first, bodies in any order o2, every blockaddress constant gets a dummy block and goes on the todo
+   list, the fix-up pass runs after the bodies, the metadata and the use-list orders):
+   in an accepted module every blockaddress constant that was created holds a block listed by the function it
+   names, that function is listed by the module, and the block is none of the dummies ... *)
+Module PH := PlaceholderProofs.
+Theorem C04_no_placeholder : forall (o1 o2 : oracle) a r, fair o1 -> PH.translate o1 o2 a = Skeleton.Ok r ->
+  forall c co, nth_error (PH.s_consts (PH.m_st r)) c = Some co ->
+  exists id par bs, In (PH.c_func co) (PH.m_tops r) /\
+    nth_error (PH.s_tops (PH.m_st r)) (PH.c_func co) = Some (PH.TFunc id par bs) /\
+    In (PH.c_block co) bs /\ ~ In (PH.c_block co) (PH.s_dummies (PH.m_st r)).
+Proof. exact PH.no_placeholder. Qed.
+(* ... so no block reachable from the module (listed by a listed function, or held by a constant of a listed
+   initialiser, instruction, metadata or use-list-order site) is a dummy: each is listed by a listed function *)
+Theorem C04_no_placeholder_reachable : forall (o1 o2 : oracle) a r, fair o1 -> PH.translate o1 o2 a = Skeleton.Ok r ->
+  forall b, In b (PH.reach_blocks r) ->
+    ~ In b (PH.s_dummies (PH.m_st r)) /\
+    exists fa id par bs, In fa (PH.m_tops r) /\ nth_error (PH.s_tops (PH.m_st r)) fa = Some (PH.TFunc id par bs) /\ In b bs.
+Proof. exact PH.no_placeholder_reachable. Qed.
+(* parent links: a function's parent is the module, the parent of a block is the function that lists it *)
+Theorem C04_parents_agree : forall (o1 o2 : oracle) a r, PH.translate o1 o2 a = Skeleton.Ok r ->
+  forall fa id par bs, nth_error (PH.s_tops (PH.m_st r)) fa = Some (PH.TFunc id par bs) ->
+    par = Some PH.module_addr /\
+    forall b, In b bs -> exists bo, nth_error (PH.s_blocks (PH.m_st r)) b = Some bo /\ PH.b_parent bo = Some fa.
+Proof. exact PH.parents_agree. Qed.
+(* non-vacuity: a global initialised with the address of a block of a later function; a missing block is an error *)
+Example C04_no_placeholder_example :
+  PH.run id_oracle PH.rev_oracle PH.ex_forward =
+    Skeleton.Ok ([Some (PH.ObsVar [Some (1, 1)]); Some (PH.ObsFunc true [(true, []); (true, [])])], []) /\
+  PH.run id_oracle id_oracle {| PH.a_tops := [ {| PH.a_id := PH.f_; PH.a_body := PH.ADef [(PH.l1, [])] |} ];
+                                PH.a_late := [(PH.f_, PH.l2)] |} = Skeleton.Err.
+Proof. split; vm_compute; reflexivity. Qed.
+Print Assumptions C04_no_placeholder.
+Print Assumptions C04_no_placeholder_reachable.
+Print Assumptions C04_parents_agree.
